@@ -4,6 +4,9 @@ import subprocess, os, re
 VERIF = os.path.dirname(os.path.dirname(os.path.abspath(__file__)))
 DPMODEL = os.path.join(VERIF, "lean/.lake/build/bin/dpmodel")
 
+U_COMPONENTS = ["op", "lbl", "susp", "permits", "spermits", "closed", "sclosed", "size", "avail", "queue",
+                "hands", "returned", "dropped", "woken", "fault", "ev"]
+
 ALL_COMPONENTS = ["op", "lbl", "susp", "permits", "closed", "users", "size", "max",
                   "idle", "out", "live", "woken", "fault", "ev"]
 
